@@ -155,7 +155,11 @@ func evaluate(prop string, sc *Scn, x *vrt.Sched, choices []int, res *scnResult,
 		for _, k := range keys {
 			r := x.Races[k]
 			report(Finding{Prop: "C15", Key: "race " + k, Detail: fmt.Sprintf("unordered conflicting accesses to %s: %s || %s", r.Loc, r.A, r.B)})
-			for _, p := range strings.Fields(raceOwner(r.Loc) + " " + raceOwnerBySite(r.A+" "+r.B)) {
+			extra := ""
+			if sc.Spec != nil && sc.Spec.WriterRaceIs != "" && strings.HasPrefix(r.Loc, "bufio.Writer") {
+				extra = sc.Spec.WriterRaceIs
+			}
+			for _, p := range strings.Fields(raceOwner(r.Loc) + " " + raceOwnerBySite(r.A+" "+r.B) + " " + extra) {
 				report(Finding{Prop: p, Key: "race " + k, Detail: fmt.Sprintf("unordered conflicting accesses to %s: %s || %s", r.Loc, r.A, r.B)})
 			}
 		}
